@@ -2773,6 +2773,15 @@ class Array:
         # now test compatibility of self_part with `other`
         if self_part.rank != other.rank:
             raise IndexError('wrong number of indices')
+        for ax, _ in permutations:
+            pl, ol = self_part.legs[ax], other.legs[ax]
+            same_charges = pl.qconj == ol.qconj and np.array_equal(pl.to_qflat(), ol.to_qflat())
+            if pl.block_number != ol.block_number and same_charges:
+                # `permute` bunches the leg; `self_part` keeps the (not bunched) blocks of `self`:
+                # same charge for each index, so we can rewrite `other` in the blocks of `self_part`
+                legs = list(other.legs)
+                legs[ax] = pl
+                other = Array.from_ndarray(other.to_ndarray(), legs, other.dtype, other.qtotal, labels=other._labels)
         for pl, ol in zip(self_part.legs, other.legs):
             pl.test_contractible(ol.conj())
         if np.any(self_part.qtotal != other.qtotal):
